@@ -1,4 +1,5 @@
 import EventppVerif.CL.PropAuxC19
+import EventppVerif.CL.FrameSub
 import EventppVerif.Properties.C02
 /-
   Property C19 — generation-counter wrap-around never loses or resurrects a callback.
@@ -28,7 +29,12 @@ import EventppVerif.Properties.C02
   * `C19_during`, `C19_during_walk`, `C19_during_next`: invocations in progress at a wrap stay
     memory safe and terminate, and whatever they call afterwards is a callback that is in the
     list at that time (never a removed one), reached strictly along the list order;
-  * two concrete runs with modulus 4: content survives the wrap; the permitted extra calls occur.
+  * `C19_during_once` (with `C19_during_once_inv`, `_init`, `_start`, `_frames`, `_sublist`,
+    `_ops`, `_seek`): an invocation in progress when the counter wraps still calls every callback
+    of its snapshot that is in the list when reached, exactly once, in snapshot order; the only
+    other callbacks it can call are ones added after it started;
+  * concrete runs with modulus 4: content survives the wrap; the permitted extra calls occur; the
+    snapshot survivors are still called after a wrap that happens during the invocation.
 -/
 namespace Evp
 
@@ -194,29 +200,258 @@ theorem C19_guard_stable {l : CL} {SL : SList} {b : Nat} (r : Rep l SL b) (cb : 
    guard_stable (insert_counter r cb before hn) hcap hg,
    fun hne => by rw [remove_counter l h hne]; exact hg⟩
 
+/-! ### invocations in progress at a wrap: every snapshot survivor is still called exactly once
+
+  The Model machine is run with a *ghost stack* alongside (`grunN`, `gstep`, CL/FrameSub.lean): one
+  record `Ghost` per running invocation, holding `born` — the world's id bound when the invocation
+  started, so that the callbacks added later are exactly those with a handle `≥ born` —, `snap`,
+  the snapshot (the list content at the start), `rest`, the part of the snapshot not reached yet,
+  and `called`, the handles the invocation has called so far, in call order (`gstep` appends the
+  handle whenever `MCfg.step` makes the invocation call a callback).  The ghost stack is computed
+  from the Model configuration only and does not influence the run (`C19_during_once_erase`).
+
+  `GInv m gs`: every list object of `m` is well formed and every running traversal
+  `iter l n cap …` satisfies `FrameD` with its ghost record `g` (CL/FrameSub.lean): following `next`
+  from `n` walks removed nodes `R` and then a suffix `S` of the live chain (as in
+  `C19_during_walk`), `1 ≤ cap`, and among the live nodes ahead
+    * those with a handle `< g.born` are exactly the entries of `g.rest` that are still in the list,
+      in the same order, and
+    * each of them passes the guard (`counter ≤ cap`).
+  Counters of old nodes only ever drop to 1 (the wrap), so this survives every operation.
+  In addition the record is consistent (`GhostOK`): `snap = done ++ rest`, the calls of handles
+  `< born` are in call order a sublist of `done`, every entry of `done` was called or is no
+  longer in the list. -/
+
+/-- **C19 (in progress, ghost invariant).**  `GInv` holds in every world without a running
+    invocation … -/
+theorem C19_during_once_init {m : MCfg} (h : MInv m) {p : Prog} (hst : m.stack = [.prog p]) : GInv m [] :=
+  ginv_init h hst
+
+/-- … and is preserved by every step of every behaviour: appends / prepends / inserts that wrap the
+    generation counter of a list that is being traversed (at any nesting depth) included.  There is
+    no hypothesis on `wraps`. -/
+theorem C19_during_once_inv (beh : Beh) (n : Nat) {m : MCfg} {gs : List Ghost} (h : GInv m gs) :
+    GInv (grunN beh n m gs).1 (grunN beh n m gs).2 :=
+  ginv_runN beh n h
+
+/-- one step -/
+theorem C19_during_once_step (beh : Beh) {m m' : MCfg} {gs : List Ghost} (h : GInv m gs)
+    (st : MCfg.step beh m = some m') : GInv m' (gstep m gs) :=
+  ginv_step beh h st
+
+/-- the ghost stack is an annotation only: the Model component of the instrumented run is the run -/
+theorem C19_during_once_erase (beh : Beh) (n : Nat) (m : MCfg) (gs : List Ghost) :
+    (grunN beh n m gs).1 = (MCfg.runN beh n m).1 :=
+  grunN_fst beh n m gs
+
+/-- **C19 (in progress, start of an invocation).**  When `invoke` / `enum` of list `l` calls a
+    callback (`gstep` then is `gstart m l`): the list content is `e :: es`, the callback called is
+    `e`, and the ghost record pushed for the new invocation is `born = nextId`, `snap = e :: es`,
+    `rest = es`, `called = [e.id]`.  All handles of the snapshot are distinct and `< born`. -/
+theorem C19_during_once_start {m : MCfg} {gs : List Ghost} (h : GInv m gs) {l n' : Nat}
+    (hs : seek (m.lists l).heap (m.lists l).cur (m.nextId + 1) (m.lists l).head = some n') :
+    ∃ e es, absL m l = e :: es ∧ e.id = n' ∧ ((m.lists l).heap n').cb = e.cb ∧
+      gstart m l gs = ⟨m.nextId, e :: es, es, [n']⟩ :: gs ∧
+      (absL m l).ids.Nodup ∧ ∀ x ∈ absL m l, x.id < m.nextId := by
+  have r := h.reps l
+  obtain ⟨e, es, hSL, he, hcb, ha, _⟩ := framed_start r hs
+  refine ⟨e, es, hSL, he, hcb, ?_, r.wf.nodup, fun x hx => r.wf.lt _ (SList.mem_ids_of_mem hx)⟩
+  unfold gstart MCfg.fuel
+  rw [hs]
+  show (⟨m.nextId, absL m l, advance n' (absL m l), [n']⟩ : Ghost) :: gs = _
+  rw [ha, hSL]
+
+/-- **C19 (in progress, every snapshot survivor is called exactly once, in order) —
+    `C19_during_once`.**  Let the callback of a running invocation of list `l` return (the stack is
+    `ret v :: iter l n cap … :: below`), in a state satisfying `GInv` — any number of counter wraps
+    may have happened since the invocation started.  Its ghost record is the top record `g`; every
+    entry of the remaining snapshot `g.rest` has a handle `< g.born`.  Let `SL` be the current
+    content of the list.  For what the skip loop of `doForEachIf` finds next:
+
+    * nothing (the invocation ends): no entry of the remaining snapshot is in the list — nothing
+      that should have been called was skipped; the record is popped;
+    * a node `n'`: it is in the list now, and
+      - if `n' < g.born` (the callback existed when the invocation started) then it is *the* next
+        call of the Spec invocation: the first entry `e` of the remaining snapshot that is still in
+        the list (`g.rest.dropWhile (not present) = e :: es`), with the stored callback, and the
+        remaining snapshot becomes `es`;
+      - otherwise `n'` was added during the invocation (the permitted extra call, possible only
+        after a wrap) and the remaining snapshot is unchanged.
+
+    Hence, along the run, the calls of the invocation with a handle `< born` are exactly the
+    snapshot entries that are still in the list when reached, in snapshot order, each once (an
+    entry leaves `rest` when it is called or found removed, the snapshot's handles are distinct
+    (`C19_during_once_start`), and every other call has a handle `≥ born`). -/
+theorem C19_during_once {m : MCfg} {gs0 : List Ghost} (h : GInv m gs0) {v : Bool} {l n cap arg : Nat}
+    {ho : Bool} {below : List MFrame}
+    (hst : m.stack = .prog (.ret v) :: .iter l n cap arg ho :: below) :
+    ∃ g gs, gs0 = g :: gs ∧ (∀ e ∈ g.rest, e.id < g.born) ∧ g.born ≤ m.nextId ∧
+      match seek (m.lists l).heap cap (m.nextId + 1) ((m.lists l).heap n).next with
+      | none => (∀ e ∈ g.rest, (absL m l).present e.id = false) ∧ gnext m l n cap gs0 = gs
+      | some n' => (absL m l).present n' = true ∧
+          (n' < g.born → ∃ e es, g.rest.dropWhile (fun e => !(absL m l).present e.id) = e :: es ∧
+            e.id = n' ∧ ((m.lists l).heap n').cb = e.cb ∧
+            gnext m l n cap gs0 = { g with rest := es, called := g.called ++ [n'] } :: gs) ∧
+          (g.born ≤ n' → gnext m l n cap gs0 = { g with called := g.called ++ [n'] } :: gs) := by
+  have r := h.reps l
+  have hs := h.2
+  rw [hst] at hs
+  obtain ⟨g, gs, rfl, ok, _, _⟩ := hs.prog_inv.iter_inv
+  have hold : (∀ e ∈ g.rest, e.id < g.born) ∧ g.born ≤ m.nextId := by
+    obtain ⟨_, _, _, _, _, _, _, h6, _, _, _, h10⟩ := ok
+    exact ⟨h10, h6⟩
+  refine ⟨g, gs, rfl, hold.1, hold.2, ?_⟩
+  cases hsk : seek (m.lists l).heap cap (m.nextId + 1) ((m.lists l).heap n).next with
+  | none =>
+    refine ⟨framed_done r ok hsk, ?_⟩
+    unfold gnext MCfg.fuel
+    rw [hsk]; rfl
+  | some n' =>
+    obtain ⟨hmem, h1, h2⟩ := framed_step r ok hsk
+    have hg : gnext m l n cap (g :: gs) = g.next n' :: gs := by
+      unfold gnext MCfg.fuel
+      rw [hsk]
+    refine ⟨SList.present_iff.mpr hmem, fun hlt => ?_, fun hge => ?_⟩
+    · obtain ⟨e, es, d1, d2, d3, d4, _⟩ := h1 hlt
+      refine ⟨e, es, d1, d2, d3, ?_⟩
+      rw [hg]
+      unfold Ghost.next
+      rw [if_pos hlt, d4]
+    · rw [hg]
+      unfold Ghost.next
+      rw [if_neg (by omega)]
+
+/-- **C19 (in progress, the invocation as a whole) — closed form of `C19_during_once`.**  When a
+    running invocation of list `l` ends because its skip loop finds nothing more to call — in a
+    state satisfying `GInv`, after any number of counter wraps during the invocation — then, with
+    `g` its ghost record (`g.snap` the list content when it started, whose handles are distinct and
+    `< g.born`; `g.called` the handles it called, in call order):
+
+    * the calls of callbacks that existed when it started (`handle < g.born`) are, in call order, a
+      sublist of the snapshot: snapshot order, no callback twice;
+    * every callback of the snapshot that is in the list now has been called.
+
+    Every other call is a callback added during the invocation (`handle ≥ g.born`). -/
+theorem C19_during_once_end {m : MCfg} {gs0 : List Ghost} (h : GInv m gs0) {v : Bool} {l n cap arg : Nat}
+    {ho : Bool} {below : List MFrame}
+    (hst : m.stack = .prog (.ret v) :: .iter l n cap arg ho :: below)
+    (hend : seek (m.lists l).heap cap (m.nextId + 1) ((m.lists l).heap n).next = none) :
+    ∃ g gs, gs0 = g :: gs ∧ (SList.ids g.snap).Nodup ∧ (∀ e ∈ g.snap, e.id < g.born) ∧
+      List.Sublist (g.called.filter (fun n => decide (n < g.born))) (SList.ids g.snap) ∧
+      (∀ e ∈ g.snap, (absL m l).present e.id = true → e.id ∈ g.called) := by
+  have r := h.reps l
+  have hs := h.2
+  rw [hst] at hs
+  obtain ⟨g, gs, rfl, ok, ⟨done, h1, h2, h3, h4, h5⟩, _⟩ := hs.prog_inv.iter_inv
+  have hdone := framed_done r ok hend
+  refine ⟨g, gs, rfl, h5, h4, ?_, fun e he hp => ?_⟩
+  · have : SList.ids g.snap = SList.ids done ++ SList.ids g.rest := by rw [h1]; simp [SList.ids]
+    rw [this]
+    exact List.Sublist.trans h2 (List.sublist_append_left _ _)
+  · rw [h1] at he
+    rcases List.mem_append.mp he with he | he
+    · rcases h3 e he with hc | hn
+      · exact hc
+      · rw [hn] at hp; cases hp
+    · rw [hdone e he] at hp; cases hp
+
+/-- what `MCfg.step` does when the skip loop finds `n'` (definition of `seekCall`, for reference next
+    to `gstep`): it emits the event `.call ⟨l, n', stored callback, arg, ho⟩` and the invocation's
+    frame moves to `n'` — these are exactly the steps in which `gstep` appends `n'` to `called`. -/
+theorem C19_during_once_event (beh : Beh) (m : MCfg) {l cap arg n' : Nat} {start : Option Nat} {ho : Bool}
+    {below : List MFrame} (hs : seek (m.lists l).heap cap (m.nextId + 1) start = some n') :
+    (MCfg.seekCall beh m l start cap arg ho below).trace =
+      .call ⟨l, n', ((m.lists l).heap n').cb, arg, ho⟩ :: m.trace ∧
+    ∃ p, (MCfg.seekCall beh m l start cap arg ho below).stack = .prog p :: .iter l n' cap arg ho :: below := by
+  unfold MCfg.seekCall MCfg.fuel
+  rw [hs]
+  exact ⟨rfl, _, rfl⟩
+
+/-- **C19 (in progress, all nesting depths).**  Under `GInv` every running traversal on the stack —
+    not only the top one — has a ghost record with which it satisfies `FrameD`, and the record is
+    consistent (`GhostOK`: `snap = done ++ rest`, the old calls are a sublist of `done`, every
+    entry of `done` was called or is no longer in the list). -/
+theorem C19_during_once_frames {m : MCfg} {gs : List Ghost} (h : GInv m gs) {l n cap arg : Nat} {ho : Bool}
+    (hf : MFrame.iter l n cap arg ho ∈ m.stack) :
+    ∃ g ∈ gs, FrameD (m.lists l) (absL m l) m.nextId n cap g.born g.rest ∧ GhostOK (absL m l) g := by
+  have hs := h.2
+  clear h
+  generalize m.stack = st at hs hf
+  induction hs with
+  | nil => cases hf
+  | prog p _ ih =>
+    rcases List.mem_cons.mp hf with e | hf
+    · cases e
+    · exact ih hf
+  | wait k _ ih =>
+    rcases List.mem_cons.mp hf with e | hf
+    · cases e
+    · exact ih hf
+  | iter ok gok _ ih =>
+    rcases List.mem_cons.mp hf with e | hf
+    · cases e
+      exact ⟨_, by simp, ok, gok⟩
+    · obtain ⟨g, hg, hfd⟩ := ih hf
+      exact ⟨g, List.mem_cons_of_mem _ hg, hfd⟩
+
+/-- **C19 (in progress, the sublist form).**  For every running traversal: the entries of its
+    remaining snapshot that are still in the list are a sublist, in order, of the live nodes ahead
+    that pass its guard — of what the traversal will still call (`FrameSub`, CL/FrameSub.lean;
+    before any wrap the two lists are equal, `FrameOK.toSub`).  Nothing of the snapshot is ever
+    hidden from the traversal, by a wrap or otherwise. -/
+theorem C19_during_once_sublist {m : MCfg} {gs : List Ghost} (h : GInv m gs) {l n cap arg : Nat} {ho : Bool}
+    (hf : MFrame.iter l n cap arg ho ∈ m.stack) :
+    ∃ g ∈ gs, ∃ R S : List Nat, S <:+ (absL m l).ids ∧
+      (∀ x ∈ R, ((m.lists l).heap x).counter = 0) ∧
+      Seg nextF (m.lists l).heap (some n) R S.head? ∧
+      List.Sublist ((g.rest.filter (fun e => (absL m l).present e.id)).map (·.id))
+        ((if R = [] then S.tail else S).filter
+          (fun a => decide (((m.lists l).heap a).counter ≤ cap))) := by
+  obtain ⟨g, hg, hfd, _⟩ := C19_during_once_frames h hf
+  obtain ⟨R, S, h1, h2, _, h4, h5, _, _⟩ := hfd.toSub
+  exact ⟨g, hg, R, S, h1, fun x hx => (h2 x hx).1, h4, h5⟩
+
+/-- **C19 (in progress, the operations).**  On one list object: `append` / `prepend` / `insert`
+    (whether or not `getNextCounter` takes its wrap branch) and `remove` keep the frame invariant
+    `FrameD` of every running traversal with the *same* remaining snapshot. -/
+theorem C19_during_once_ops {l : CL} {SL : SList} {b m cap b0 : Nat} {rest : List Entry} (r : Rep l SL b)
+    (f : FrameD l SL b m cap b0 rest) (cb : Cb) (before h : Hd) :
+    FrameD (l.append (b + 1) b cb) (SL.append b cb) (b + 1) m cap b0 rest ∧
+    FrameD (l.prepend (b + 1) b cb) (SL.prepend b cb) (b + 1) m cap b0 rest ∧
+    FrameD (l.insert (b + 1) b cb before) (SL.insert b cb before) (b + 1) m cap b0 rest ∧
+    FrameD (l.remove h).1 (SL.remove h).1 b m cap b0 rest :=
+  ⟨framed_append r f cb, framed_prepend r f cb, framed_insert r f cb before, framed_remove r f h⟩
+
+/-- **C19 (in progress, the skip loop under the sublist invariant).**  Under `FrameSub` alone the
+    skip loop never skips a snapshot entry that is still in the list: it ends only if there is
+    none; otherwise it finds the first such entry (and the invariant holds again with the snapshot
+    advanced past it) or a node that is not in the remaining snapshot (an extra call; the
+    invariant holds again with the same snapshot). -/
+theorem C19_during_once_seek {l : CL} {SL : SList} {b m cap : Nat} {rest : List Entry} (r : Rep l SL b)
+    (f : FrameSub l SL b m cap rest) :
+    match seek l.heap cap (b + 1) (l.heap m).next with
+    | none => ∀ e ∈ rest, SL.present e.id = false
+    | some n' => n' ∈ SL.ids ∧
+        ((∃ e es, rest.dropWhile (fun e => !SL.present e.id) = e :: es ∧ e.id = n' ∧
+            (l.heap n').cb = e.cb ∧ FrameSub l SL b n' cap es) ∨
+         ((∀ e ∈ rest, e.id ≠ n') ∧ FrameSub l SL b n' cap rest)) :=
+  framesub_seek r f
+
 /-
-  NOT PROVED (the remaining part of the property for invocations in progress at a wrap):
-
-    "every callback of the in-progress invocation's snapshot that is still in the list when the
-     traversal reaches it is still called exactly once"
-
-  Full intended statement: strengthen the frame invariant of `MInvD` from `FrameOK … n 0 []` to
-    ∃ R S, (structural part as above) ∧
-      List.Sublist ((rest.filter (fun e => SL.present e.id)).map (·.id))
-                   ((if R = [] then S.tail else S).filter (fun x => (heap x).counter ≤ cap)) ∧
-      (1 ≤ cap ∨ rest = [])
-  where `rest` is the remaining snapshot of the corresponding Spec invocation, and show that every
-  step preserves it.  (Before the first wrap `FrameOK` gives equality; the wrap rewrites every
-  live counter to 1 ≤ cap, which keeps the sublist relation and may add the nodes appended during
-  the invocation — the permitted extra calls; later appends draw 2, 3, … which may or may not pass
-  `cap`.)  This needs sublist versions of `frame_linkBack` / `frame_linkFront` / `frame_linkBefore`
-  / `frame_freeNode` (CL/OpAux.lean), which are proved there only for the equality.
-  What *is* proved for in-progress invocations: `C19_during`, `C19_during_walk` (structure of what
-  is ahead + the skip loop takes the first node ahead that passes the guard), `C19_during_next`,
-  `C19_guard_stable` (a callback that passes the guard keeps passing it across every operation and
-  every wrap).  Together they are the per-step facts from which the statement above follows by
-  induction along the ghost snapshot; that induction (a ghost-instrumented machine) is what is
-  missing.
+  Status of the clause "Only invocations already in progress at the moment of the wrap may
+  additionally call callbacks added during them": PROVED above.
+    `C19_during_once_init` / `_inv` / `_step`: the ghost invariant `GInv` holds along every run, with
+      any number of wraps, at any nesting depth;
+    `C19_during_once_start` + `C19_during_once`: per invocation, the calls with a handle older than
+      the invocation are exactly the Spec invocation's calls (first remaining snapshot entry that is
+      still in the list, then the next, …; the invocation ends only when no remaining snapshot entry
+      is in the list); every other call is a callback added during the invocation;
+    `C19_during_once_end`: the closed form at the end of the invocation (old calls = a sublist of the
+      snapshot, in order, none twice; every snapshot callback still in the list was called);
+    `C19_during_once_sublist`: the sublist form of the frame invariant.
+  The ghost field `called` is maintained by `gstep` (it appends `n'` exactly in the branches where
+  `MCfg.seekCall` emits `.call ⟨l, n', …⟩` for that frame); that `called` is the sequence of those
+  `.call` events of the trace is by construction of `gstep`, not a separate theorem.
 -/
 
 /-! ### non-vacuity: modulus 4 -/
@@ -310,5 +545,44 @@ example :
     MInvD m ∧ m.wraps = 1 ∧ m.stack.length = 3 := by
   intro m
   exact ⟨C19_during c19Beh2 5 (C19_during_init (c19Init_inv c19Prog2) rfl), by decide +kernel, by decide +kernel⟩
+
+/-- the first callback, on its first call, appends three callbacks — the first of these appends
+    wraps the counter — and removes the callback with handle 2 -/
+def c19Beh3 : Beh := fun c nth =>
+  if c.cb = 10 ∧ nth = 0 then
+    .op (.append 0 11) fun _ => .op (.append 0 13) fun _ => .op (.append 0 14) fun _ =>
+    .op (.remove 0 2) fun _ => .ret true
+  else .ret true
+
+def c19Prog3 : Prog :=
+  .op (.append 0 10) fun _ => .op (.append 0 12) fun _ => .op (.append 0 15) fun _ =>
+  .op (.invoke 0 7) fun _ => .ret true
+
+/-- **a wrap during an invocation, with the ghost stack.**  The invocation starts with snapshot
+    `[0:10, 1:12, 2:15]` (`born = 3`) and calls handle 0; that callback wraps the counter
+    (`wraps = 1` after 9 steps), adds handles 3, 4, 5 and removes handle 2.  After the wrap the
+    invocation still calls the snapshot survivor (handle 1), skips the removed handle 2, and then
+    makes the permitted extra calls 3, 4, 5.  `GInv` — the hypothesis of `C19_during_once`,
+    `C19_during_once_end` — holds in these states. -/
+example :
+    let snap : List Entry := [⟨0, 10⟩, ⟨1, 12⟩, ⟨2, 15⟩]
+    let r4 := grunN c19Beh3 4 (c19Init c19Prog3) []
+    let r9 := grunN c19Beh3 9 (c19Init c19Prog3) []
+    let r12 := grunN c19Beh3 12 (c19Init c19Prog3) []
+    let r40 := grunN c19Beh3 40 (c19Init c19Prog3) []
+    (r4.1.wraps = 0 ∧ r4.2 = [⟨3, snap, [⟨1, 12⟩, ⟨2, 15⟩], [0]⟩]) ∧
+    (r9.1.wraps = 1 ∧ r9.2 = [⟨3, snap, [⟨2, 15⟩], [0, 1]⟩]) ∧
+    (r12.1.wraps = 1 ∧ r12.2 = [⟨3, snap, [⟨2, 15⟩], [0, 1, 3, 4, 5]⟩] ∧
+      absL r12.1 0 = [⟨0, 10⟩, ⟨1, 12⟩, ⟨3, 11⟩, ⟨4, 13⟩, ⟨5, 14⟩]) ∧
+    (r40.2 = [] ∧ r40.1.trace.reverse =
+      [.res (.handle 0), .res (.handle 1), .res (.handle 2),
+       .call ⟨0, 0, 10, 7, false⟩, .res (.handle 3), .res (.handle 4), .res (.handle 5), .res (.bool true),
+       .call ⟨0, 1, 12, 7, false⟩, .call ⟨0, 3, 11, 7, false⟩, .call ⟨0, 4, 13, 7, false⟩,
+       .call ⟨0, 5, 14, 7, false⟩, .res .unit]) ∧
+    GInv r9.1 r9.2 ∧ GInv r12.1 r12.2 := by
+  intro snap r4 r9 r12 r40
+  have h0 : GInv (c19Init c19Prog3) [] := C19_during_once_init (c19Init_inv c19Prog3) rfl
+  exact ⟨by decide +kernel, by decide +kernel, by decide +kernel, by decide +kernel,
+    C19_during_once_inv c19Beh3 9 h0, C19_during_once_inv c19Beh3 12 h0⟩
 
 end Evp
